@@ -328,15 +328,28 @@ func c10(r *core.Run) {
 			r.Check(got == "Account,HashParent", "C10/R2", h.Key()+":parent-key", p.InstrPos(parentCall),
 				"parent loaded by key ⊵ {msg.HashParent, msg.Account}", "parent folder is loaded by a key depending on {"+got+"}, expected {Account,HashParent}")
 		}
-		// stored record
-		for _, e := range p.Effects(h.Fn) {
-			call, ok := e.Instr.(ssa.CallInstruction)
-			if !ok || len(e.Store) == 0 {
+		// stored record: the call of the record setter itself, in the handler or in a helper it delegates the write to
+		type wsite struct {
+			call ssa.CallInstruction
+		}
+		var wsites []wsite
+		for _, wfn := range p.Summary(h.Fn).Funcs {
+			if isAccessorFn(p, wfn) {
 				continue
 			}
+			for _, e := range p.Effects(wfn) {
+				call, ok := e.Instr.(ssa.CallInstruction)
+				if !ok || e.Direct || !performsDirectly(p, wfn, e, "Set", ftFiles) {
+					continue
+				}
+				wsites = append(wsites, wsite{call})
+			}
+		}
+		for _, ws := range wsites {
+			call := ws.call
 			args := dataArgs(call)
 			if len(args) != 1 {
-				r.Undecided("C10/R2", h.Key()+":stored-record", p.InstrPos(e.Instr), "write of a Files record does not take the record as its single argument")
+				r.Undecided("C10/R2", h.Key()+":stored-record", p.InstrPos(call), "write of a Files record does not take the record as its single argument")
 				continue
 			}
 			own := p.ProvAt(args[0], ".Owner", call)
